@@ -8,7 +8,7 @@ use poulpy_hal::{
 use crate::{
     GetDistribution, GetDistributionMut,
     layouts::{
-        GGLWEInfos, GGLWEToGGSWKeyCompressedToMut, GGLWEToGGSWKeyToMut, GGLWEToMut, GGSWCompressedSeedMut, GGSWCompressedToMut,
+        GGLWEInfos, GGLWEToGGSWKeyCompressedSeedMut, GGLWEToGGSWKeyCompressedToMut, GGLWEToGGSWKeyToMut, GGLWEToMut, GGSWCompressedSeedMut, GGSWCompressedToMut,
         GGSWInfos, GGSWToMut, GLWECompressedSeedMut, GLWECompressedToMut, GLWEInfos, GLWEPlaintextToRef, GLWEPreparedToRef,
         GLWESecretPreparedToRef, GLWESecretToRef, GLWESwitchingKeyDegreesMut, GLWEToMut, LWEInfos, LWEPlaintextToRef,
         LWESecretToRef, LWEToMut, SetGaloisElement, TorusPrecision,
@@ -461,7 +461,7 @@ pub trait GGLWEToGGSWKeyCompressedEncryptSk<BE: Backend> {
         source_xe: &mut Source,
         scratch: &mut Scratch<BE>,
     ) where
-        R: GGLWEToGGSWKeyCompressedToMut + GGLWEInfos,
+        R: GGLWEToGGSWKeyCompressedToMut + GGLWEToGGSWKeyCompressedSeedMut + GGLWEInfos,
         E: EncryptionInfos,
         S: GLWESecretToRef + GetDistribution + GLWEInfos;
 }
